@@ -23,27 +23,27 @@ Notation fresh := (fresh ids N).
 
 (** a call that is rejected with an exception leaves the observable state exactly as it was *)
 Theorem C08_rejected_no_trace : forall s o s' e, Inv s -> fresh s -> stepR s o = (s', Err e) -> observe s' = observe s.
-Proof. exact (rejected_no_trace ids ids_inj N ids_uuid sanitize unit_ok). Qed.
+Proof. intros; eapply rejected_no_trace; eauto. Qed.
 
 (** ... in every reachable state *)
 Theorem C08_rejected_no_trace_reachable : forall s o s' e,
   reachable ids N sanitize unit_ok s -> fresh s -> stepR s o = (s', Err e) -> observe s' = observe s.
-Proof. exact (rejected_no_trace_reachable ids ids_inj N ids_uuid sanitize unit_ok). Qed.
+Proof. intros; eapply rejected_no_trace_reachable; eauto. Qed.
 
 (** stronger: the state itself is unchanged, except that an id of the supply may have been consumed *)
 Theorem C08_rejected_state : forall s o s' e, Inv s -> fresh s -> stepR s o = (s', Err e) -> s' = s \/ s' = bump s.
-Proof. exact (rejected_state ids ids_inj N ids_uuid sanitize unit_ok). Qed.
+Proof. intros; eapply rejected_state; eauto. Qed.
 
 (** every step is an [Ok] with an admissible transition or an [Err] without trace; never undefined behaviour *)
 Theorem C08_step_shape : forall s o, Inv s -> fresh s -> shape ids N s (stepR s o).
-Proof. exact (step_shape ids ids_inj N ids_uuid sanitize unit_ok). Qed.
+Proof. intros; eapply step_shape; eauto. Qed.
 
 Theorem C08_step_never_ub : forall s o w, Inv s -> fresh s -> snd (stepR s o) <> UB w.
-Proof. exact (step_never_ub ids ids_inj N ids_uuid sanitize unit_ok). Qed.
+Proof. intros; eapply step_never_ub; eauto. Qed.
 
 (** the invariant the statement rests on holds in every reachable state (C03) *)
 Theorem C08_inv_reachable : forall s, reachable ids N sanitize unit_ok s -> Inv s.
-Proof. exact (inv_reachable ids ids_inj N ids_uuid sanitize unit_ok). Qed.
+Proof. intros; eapply inv_reachable; eauto. Qed.
 
 End C08.
 
